@@ -1,1 +1,217 @@
-pub fn placeholder() {}
+//! Independent reference implementation of the wire formats octo-squirrel speaks,
+//! written from the published specifications (DESIGN.md appendix B). It does
+//! not depend on any crate of /repo; it shares only third-party cryptographic
+//! primitives. Receivers are strict (they reject what the specifications
+//! forbid); senders are parameterisable so that the same code doubles as the
+//! adversary (chosen timestamps, type bytes, salts, malformed inner content).
+
+pub mod ss;
+pub mod ss2022;
+pub mod trojan;
+pub mod vmess;
+
+/// SOCKS5-style address as it appears in Shadowsocks and Trojan.
+#[derive(Clone, Debug, PartialEq, Eq)]
+pub enum Addr {
+    V4([u8; 4], u16),
+    V6([u8; 16], u16),
+    Name(Vec<u8>, u16),
+}
+
+impl Addr {
+    pub fn port(&self) -> u16 {
+        match self {
+            Addr::V4(_, p) | Addr::V6(_, p) | Addr::Name(_, p) => *p,
+        }
+    }
+
+    pub fn socks(&self) -> Vec<u8> {
+        let mut v = Vec::new();
+        match self {
+            Addr::V4(ip, p) => {
+                v.push(1);
+                v.extend_from_slice(ip);
+                v.extend_from_slice(&p.to_be_bytes());
+            }
+            Addr::Name(n, p) => {
+                v.push(3);
+                v.push(n.len() as u8);
+                v.extend_from_slice(n);
+                v.extend_from_slice(&p.to_be_bytes());
+            }
+            Addr::V6(ip, p) => {
+                v.push(4);
+                v.extend_from_slice(ip);
+                v.extend_from_slice(&p.to_be_bytes());
+            }
+        }
+        v
+    }
+
+    /// Parse at the head of `b`; returns the address and the bytes it used.
+    pub fn parse_socks(b: &[u8]) -> Result<(Addr, usize), String> {
+        let t = *b.first().ok_or("empty address")?;
+        match t {
+            1 => {
+                if b.len() < 7 {
+                    return Err("short ipv4 address".into());
+                }
+                Ok((Addr::V4([b[1], b[2], b[3], b[4]], u16::from_be_bytes([b[5], b[6]])), 7))
+            }
+            3 => {
+                let l = *b.get(1).ok_or("short domain address")? as usize;
+                if b.len() < 4 + l {
+                    return Err("short domain address".into());
+                }
+                Ok((Addr::Name(b[2..2 + l].to_vec(), u16::from_be_bytes([b[2 + l], b[3 + l]])), 4 + l))
+            }
+            4 => {
+                if b.len() < 19 {
+                    return Err("short ipv6 address".into());
+                }
+                let mut ip = [0u8; 16];
+                ip.copy_from_slice(&b[1..17]);
+                Ok((Addr::V6(ip, u16::from_be_bytes([b[17], b[18]])), 19))
+            }
+            _ => Err(format!("address type {t}")),
+        }
+    }
+
+    /// VMess layout: port, type (1 v4, 2 name, 3 v6), address
+    pub fn vmess(&self) -> Vec<u8> {
+        let mut v = self.port().to_be_bytes().to_vec();
+        match self {
+            Addr::V4(ip, _) => {
+                v.push(1);
+                v.extend_from_slice(ip);
+            }
+            Addr::Name(n, _) => {
+                v.push(2);
+                v.push(n.len() as u8);
+                v.extend_from_slice(n);
+            }
+            Addr::V6(ip, _) => {
+                v.push(3);
+                v.extend_from_slice(ip);
+            }
+        }
+        v
+    }
+
+    pub fn parse_vmess(b: &[u8]) -> Result<(Addr, usize), String> {
+        if b.len() < 3 {
+            return Err("short vmess address".into());
+        }
+        let port = u16::from_be_bytes([b[0], b[1]]);
+        match b[2] {
+            1 if b.len() >= 7 => Ok((Addr::V4([b[3], b[4], b[5], b[6]], port), 7)),
+            2 if b.len() >= 4 && b.len() >= 4 + b[3] as usize => {
+                let l = b[3] as usize;
+                Ok((Addr::Name(b[4..4 + l].to_vec(), port), 4 + l))
+            }
+            3 if b.len() >= 19 => {
+                let mut ip = [0u8; 16];
+                ip.copy_from_slice(&b[3..19]);
+                Ok((Addr::V6(ip, port), 19))
+            }
+            t => Err(format!("vmess address type {t} or short")),
+        }
+    }
+}
+
+/// AEAD primitives by cipher name.
+#[derive(Clone, Copy, Debug, PartialEq, Eq)]
+pub enum Aead {
+    Aes128Gcm,
+    Aes256Gcm,
+    ChaCha20Poly1305,
+    ChaCha8Poly1305,
+    XChaCha20Poly1305,
+    XChaCha8Poly1305,
+}
+
+impl Aead {
+    pub fn key_len(self) -> usize {
+        match self {
+            Aead::Aes128Gcm => 16,
+            _ => 32,
+        }
+    }
+
+    pub fn seal(self, key: &[u8], nonce: &[u8], aad: &[u8], pt: &[u8]) -> Vec<u8> {
+        use aes_gcm::aead::Aead as _;
+        use aes_gcm::aead::KeyInit;
+        use aes_gcm::aead::Payload;
+        let p = Payload { msg: pt, aad };
+        match self {
+            Aead::Aes128Gcm => aes_gcm::Aes128Gcm::new_from_slice(key).unwrap().encrypt(nonce.into(), p).unwrap(),
+            Aead::Aes256Gcm => aes_gcm::Aes256Gcm::new_from_slice(key).unwrap().encrypt(nonce.into(), p).unwrap(),
+            Aead::ChaCha20Poly1305 => chacha20poly1305::ChaCha20Poly1305::new_from_slice(key).unwrap().encrypt(nonce.into(), p).unwrap(),
+            Aead::ChaCha8Poly1305 => chacha20poly1305::ChaCha8Poly1305::new_from_slice(key).unwrap().encrypt(nonce.into(), p).unwrap(),
+            Aead::XChaCha20Poly1305 => chacha20poly1305::XChaCha20Poly1305::new_from_slice(key).unwrap().encrypt(nonce.into(), p).unwrap(),
+            Aead::XChaCha8Poly1305 => chacha20poly1305::XChaCha8Poly1305::new_from_slice(key).unwrap().encrypt(nonce.into(), p).unwrap(),
+        }
+    }
+
+    pub fn open(self, key: &[u8], nonce: &[u8], aad: &[u8], ct: &[u8]) -> Result<Vec<u8>, String> {
+        use aes_gcm::aead::Aead as _;
+        use aes_gcm::aead::KeyInit;
+        use aes_gcm::aead::Payload;
+        if ct.len() < 16 {
+            return Err("ciphertext shorter than a tag".into());
+        }
+        let p = Payload { msg: ct, aad };
+        let r = match self {
+            Aead::Aes128Gcm => aes_gcm::Aes128Gcm::new_from_slice(key).unwrap().decrypt(nonce.into(), p),
+            Aead::Aes256Gcm => aes_gcm::Aes256Gcm::new_from_slice(key).unwrap().decrypt(nonce.into(), p),
+            Aead::ChaCha20Poly1305 => chacha20poly1305::ChaCha20Poly1305::new_from_slice(key).unwrap().decrypt(nonce.into(), p),
+            Aead::ChaCha8Poly1305 => chacha20poly1305::ChaCha8Poly1305::new_from_slice(key).unwrap().decrypt(nonce.into(), p),
+            Aead::XChaCha20Poly1305 => chacha20poly1305::XChaCha20Poly1305::new_from_slice(key).unwrap().decrypt(nonce.into(), p),
+            Aead::XChaCha8Poly1305 => chacha20poly1305::XChaCha8Poly1305::new_from_slice(key).unwrap().decrypt(nonce.into(), p),
+        };
+        r.map_err(|_| "authentication failed".to_owned())
+    }
+}
+
+/// 96-bit little-endian counter nonce (Shadowsocks).
+#[derive(Clone, Debug, Default)]
+pub struct LeCounter(pub u128);
+
+impl LeCounter {
+    pub fn next(&mut self) -> [u8; 12] {
+        let b = self.0.to_le_bytes();
+        self.0 += 1;
+        let mut n = [0u8; 12];
+        n.copy_from_slice(&b[..12]);
+        n
+    }
+}
+
+/// What a sealed unit used: (key, nonce) – the C12 oracle collects these.
+#[derive(Clone, Debug, PartialEq, Eq, PartialOrd, Ord)]
+pub struct KeyNonce {
+    pub key: Vec<u8>,
+    pub nonce: Vec<u8>,
+}
+
+pub fn aes_ecb_encrypt_block(key: &[u8], block: &mut [u8; 16]) {
+    use aes::cipher::BlockEncrypt;
+    use aes::cipher::KeyInit;
+    let b = aes::Block::from_mut_slice(block);
+    if key.len() == 16 {
+        aes::Aes128::new_from_slice(key).unwrap().encrypt_block(b);
+    } else {
+        aes::Aes256::new_from_slice(key).unwrap().encrypt_block(b);
+    }
+}
+
+pub fn aes_ecb_decrypt_block(key: &[u8], block: &mut [u8; 16]) {
+    use aes::cipher::BlockDecrypt;
+    use aes::cipher::KeyInit;
+    let b = aes::Block::from_mut_slice(block);
+    if key.len() == 16 {
+        aes::Aes128::new_from_slice(key).unwrap().decrypt_block(b);
+    } else {
+        aes::Aes256::new_from_slice(key).unwrap().decrypt_block(b);
+    }
+}
